@@ -52,6 +52,11 @@ def h_history(ctx, hist, fr_max, arc_max, aa0, ask, ackpl, send_only, ard="sym",
     if lite:
         nrf.ard = ard
         nrf.arc = arc
+    elif cfg == "retries":
+        # the retry configuration reached through a history of the three setters: what counts is the last value of each
+        nrf.arc = (arc + 2) % 16
+        nrf.set_auto_retries(((ard + 750) % 4000) if not isinstance(ard, int) else 500, arc)
+        nrf.ard = ard
     else:
         nrf.set_auto_retries(ard, arc)
     nrf.listen = False  # "in TX mode"
@@ -197,6 +202,9 @@ def jobs(tier):
                                         (("send", "send"), (True, False, 0, False)), (("send", "resend"), (True, False, 2, False))):
         out.append(Job("send-resend-history-after-toggling-the-features", h_history,
                        dict(hist=list(hist), fr_max=1, arc_max=3, aa0=aa0, ask=ask, ackpl=ackpl, send_only=so, ard=250, cfg="toggled"), cost=20))
+    for hist in (("send",), ("send", "resend")):
+        out.append(Job("send-resend-history-retries-set-through-a-setter-history", h_history,
+                       dict(hist=list(hist), fr_max=1, arc_max=5, aa0=True, ask=False, ackpl=0, send_only=False, ard=1500, cfg="retries"), cost=30))
     # the same contract on the stripped-down driver (rf24_lite.RF24; C20 states its parity with the full driver in detail)
     for hist, fr_max, arc_max in ((("send", "send", "send"), 0, 1), (("send", "resend"), 1, 2), (("sendlist",), 1, 2)):
         out.append(Job("send-resend-history-lite-driver", h_history,
